@@ -32,8 +32,9 @@ SET_TYPES = {'set', 'frozenset', 'WeakSet'}
 ORDER_INSENSITIVE = {'all', 'any', 'set', 'frozenset', 'sum', 'len', 'max', 'min', 'sorted'}
 
 #: iterations over address-ordered collections that are accepted, with the reason
+#: one named class: the metaclass that builds and matches Concurrent[...] types
 ALLOWED_SET_ITERATION = {
-    'usim._primitives.concurrent_exception.MetaConcurrent._get_specialisation':
+    'usim._primitives.concurrent_exception.MetaConcurrent':
         'the frozenset of specialisations is only used to build the class *name* and a tuple '
         'that is consumed by all()/any() in the matching predicate (C17): no event order '
         'depends on it',
@@ -125,8 +126,10 @@ def run(check, an: Analysis):
                     continue
                 where = '%s:%d' % (fn.module.relpath, getattr(site, 'lineno', fn.lineno))
                 construct = '%s:iterates-%s' % (short(fn.qn), ast.unparse(expr)[:30])
-                if fn.qn in ALLOWED_SET_ITERATION:
-                    check.note('accepted %s: %s' % (construct, ALLOWED_SET_ITERATION[fn.qn]))
+                owner = an.p.enclosing_self_class(fn)
+                if owner is not None and owner.qn in ALLOWED_SET_ITERATION:
+                    check.note('accepted %s: %s' % (construct,
+                                                    ALLOWED_SET_ITERATION[owner.qn]))
                     continue
                 if _consumer_is_order_insensitive(site, parents):
                     check.instance('T', construct, True, where,
